@@ -42,8 +42,31 @@ def load_known():
         return json.load(fh)
 
 
+class KnownMap(dict):
+    """signature -> finding; a listed signature may end its kinds part with '*'
+    (same oracle rule and constraint sub-case, any task-kind qualifiers)."""
+
+    def lookup(self, sig):
+        if dict.__contains__(self, sig):
+            return dict.__getitem__(self, sig)
+        import fnmatch
+        for pat, f in self.items():
+            if "*" in pat and fnmatch.fnmatchcase(sig, pat):
+                return f
+        return None
+
+    def __contains__(self, sig):
+        return self.lookup(sig) is not None
+
+    def __getitem__(self, sig):
+        f = self.lookup(sig)
+        if f is None:
+            raise KeyError(sig)
+        return f
+
+
 def known_signatures(known, pid):
-    return {f["signature"]: f for f in known.get("findings", []) if f["property"] == pid}
+    return KnownMap({f["signature"]: f for f in known.get("findings", []) if f["property"] == pid})
 
 
 def slug(s):
@@ -195,11 +218,17 @@ def run_batch(pid, tier, verif_seed, nruns, nworkers, max_wall):
     rc = 0
     lines = []
     unlisted = []
+    grouped = {}
     for sig, slot in sorted(agg["viol"].items()):
         if sig in known:
-            lines.append(f"KNOWN-FINDING: property={pid} {sig} {known[sig]['what']} (hit {slot['count']}x)")
+            f = known[sig]
+            g = grouped.setdefault(f["signature"], {"f": f, "count": 0, "variants": []})
+            g["count"] += slot["count"]
+            g["variants"].append(sig)
         else:
             unlisted.append((sig, slot))
+    for pat, g in grouped.items():
+        lines.append(f"KNOWN-FINDING: property={pid} {pat} {g['f']['what']} (hit {g['count']}x in {len(g['variants'])} variant(s))")
     budget = 150 if tier == "quick" else 400
     for sig, slot in unlisted[:6]:
         path, err = minimise_and_write(check, pid, slot["first"], sig, budget, timeout)
